@@ -42,8 +42,10 @@ pub(crate) fn get_haversine_distance(p1: &Location, p2: &Location) -> Float {
     let lat1 = degree_rad(p1_lat);
     let lat2 = degree_rad(p2_lat);
 
-    let a =
-        (d_lat / 2.).sin() * (d_lat / 2.).sin() + (d_lng / 2.).sin() * (d_lng / 2.).sin() * (lat1).cos() * (lat2).cos();
+    // NOTE the product of cosines is taken first: multiplication is commutative but not associative in binary64,
+    // so the result does not depend on the order of the two points
+    let a = (d_lat / 2.).sin() * (d_lat / 2.).sin()
+        + (d_lng / 2.).sin() * (d_lng / 2.).sin() * ((lat1).cos() * (lat2).cos());
     let c = 2. * a.sqrt().atan2((1. - a).sqrt());
 
     let radius = wgs84_earth_radius(d_lat);
